@@ -93,6 +93,11 @@ def fc_vectors(f):
     vec["grid"] = [float(x) for x in f]
     vec["mid"] = [(float(f[k]) + float(f[k + 1])) / 2.0 for k in range(nf - 1)]
     vec["off"] = [float(f[k]) + t * df for k in range(nf - 1) for t in (0.3, 0.7)]
+    # same length and same first / last value as the vector before it, other interior values (a lookup
+    # remembered from the previous call by size and end points would be reused wrongly)
+    for base in ("grid", "mid"):
+        v = list(vec[base])
+        vec[base + "-warp"] = [v[0]] + [x + df * (0.1 + 0.2 * ((7 * k) % 4)) for k, x in enumerate(v[1:-1], 1)] + [v[-1]]
     vec["edge"] = [0.0, 0.4 * df, last, last + 0.6 * df, 2.0 * last, -df, -0.3 * df]
     vec["single"] = [float(f[nf // 2]) + 0.3 * df]
     allv = vec["grid"] + vec["mid"] + vec["off"] + vec["edge"]
@@ -100,7 +105,7 @@ def fc_vectors(f):
     return vec
 
 
-VECTOR_NAMES = ["grid", "mid", "off", "edge", "single", "all-reversed"]
+VECTOR_NAMES = ["grid", "grid-warp", "mid", "mid-warp", "off", "edge", "single", "all-reversed"]
 
 
 def fc_class(f, fc):
